@@ -158,7 +158,12 @@ class Case:
         from harness import progs
 
         c = self.case
-        src = progs.gen_program(random.Random(c["pseed"]), c["kind"], c["depth"], probes=True, odd=c.get("odd", True))
+        if "corpus_odd" in c:
+            c = dict(c)
+            c["kind"], src = progs.CORPUS_ODD[c["corpus_odd"]]
+            self.case = c
+        else:
+            src = progs.gen_program(random.Random(c["pseed"]), c["kind"], c["depth"], probes=True, odd=c.get("odd", True))
         mask = c["mask"] or [1]
         reps = c["reps"]
         lowlevel.set_trickery_enabled(None if c["mode"] == "auto" else c["mode"] == "trickery")
@@ -224,6 +229,10 @@ class Case:
                         self.problems.append(f"point {i} ({label}): two extractions of the unchanged target format differently")
                 del held
                 if objs and frame is not None:
+                    dropped = [sys.getrefcount(o) for o in objs]
+                    if dropped != base:
+                        self.problems.append(f"point {i} ({label}): right after the extraction results were dropped (no garbage collection yet) the "
+                                             f"reference counts of the value-stack objects are {dropped}, baseline {base}: something still holds them")
                     # while k snapshots of the value stack are held, and after dropping them
                     snaps = [raw_stack(frame) for _ in range(reps)]
                     during = [sys.getrefcount(o) for o in objs]
